@@ -51,7 +51,7 @@ func cGoid() int {
 
 // version stamp: a template [paddingOctets(a), paddingOctets(b)] stands for version a*50+b
 func cVersionOf(tr TemplateRecord) int {
-	if len(tr.ScopeFieldSpecifiers) == 2 { // options template: the version is in the scope fields, the option field is constant
+	if len(tr.ScopeFieldSpecifiers) == 3 { // options template: the version is in the scope fields, the option field is constant
 		return int(tr.ScopeFieldSpecifiers[0].Length)*50 + int(tr.ScopeFieldSpecifiers[1].Length)
 	}
 	if len(tr.FieldSpecifiers) != 2 {
@@ -89,8 +89,9 @@ func cVarTplMsg(id int) []byte {
 const cVarLen = 7 // (NetFlow v9 has no variable-length encoding: a short fixed string)
 
 func cOptsMsg(id, a, b int) []byte {
+	// three scope fields (the version in the first two) and one option field
 	// NetFlow v9 options template: scope length and option length in octets
-	rec := append(append(append(cU16(id), cU16(8)...), cU16(4)...), append(append(cU16(210), cU16(a)...), append(append(cU16(210), cU16(b)...), append(cU16(210), cU16(1)...)...)...)...)
+	rec := append(append(append(cU16(id), cU16(12)...), cU16(4)...), append(append(cU16(210), cU16(a)...), append(append(cU16(210), cU16(b)...), append(append(cU16(210), cU16(1)...), append(cU16(210), cU16(1)...)...)...)...)...)
 	set := append(append(cU16(1), cU16(4+len(rec))...), rec...)
 	msg := append([]byte{0, 9, 0, 1}, make([]byte, 16)...)
 	return append(msg, set...)
@@ -127,7 +128,7 @@ func cObserved(msg *Message, err error) int {
 		return -1
 	}
 	r := msg.DataSets[0]
-	if len(r) != 2 && len(r) != 3 { // 3: an options template (two scope fields carrying the version, one option)
+	if len(r) != 2 && len(r) != 4 { // 4: an options template (three scope fields, the first two carrying the version, one option)
 		return -1
 	}
 	a, ok1 := r[0].Value.([]byte)
